@@ -73,10 +73,10 @@ func init() {
 		d("missing", "optional-zero", "optional-present", "invoke-ok"),
 		"(a) 2 ctors, <=2 scopes, optional fields; (b) chain of 3 ctors in one scope, every edge optional or required, 1 Invoke; (c) 2 ctors with Export over <=2 scopes; (d) 1 ctor, Invoke, 1 more ctor, the Invoke again (optional fields); (e) ctor, ctor, decorator with an extra dependency, ctor - each may return an error - below an optional consumer (assumed: all four accepted, the decorated key has a visible constructor, the decorator's own dependencies are not missing); (f) 2 ctors with nested parameter objects (depth 2), optional fields", "the quick entries, each explored a second time with z3 4.8.12 (--cross z3), 200 paths validated natively",
 		stubs, uf)
-	reg("C05", d("verifC05u", "verifC05sa", "verifC05sb", "verifC05sc", "verifC05sd", "verifC05se", "verifC05sf", "verifC05sh"), d("verifC05u", "verifC05sa", "verifC05sb", "verifC05sc", "verifC05sd", "verifC05se", "verifC05sf", "verifC05sh", "verifT05a"),
+	reg("C05", d("verifC05u", "verifC05sa", "verifC05sb", "verifC05sc", "verifC05sd", "verifC05se", "verifC05sf", "verifC05sh", "verifC05si"), d("verifC05u", "verifC05sa", "verifC05sb", "verifC05sc", "verifC05sd", "verifC05se", "verifC05sf", "verifC05sh", "verifC05si", "verifT05a"),
 		d(isAcyclic, "go.uber.org/dig/internal/graph.isAcyclic", "(*go.uber.org/dig.graphHolder).EdgesFrom", provide, invoke, "(*go.uber.org/dig.graphHolder).Rollback"),
 		d("acyclic", "cyclic", "cycle-len>=3", "cycle-rejected", "cycle-deferred", "invoke-on-cycle", "reentered", "invoke-on-static-cycle"),
-		"unit: every digraph with n<=4 nodes (symbolic adjacency matrix); system: (sa) 2 ctors with 1 param/1 result of symbolic type, Export, <=2 scopes; (sb) same with DeferAcyclicVerification and 2 Invokes; (sc) group and optional edges, defer free; (sd) 2 ctors over <=3 scopes of free shape (cycles visible only from a grandchild); (se) 2 registrations incl. <=1 decorator whose bodies may re-enter the container, defer free, <=2 scopes; (sf) DeferAcyclicVerification: 1 ctor, Invoke, 1 more ctor (optional / group edges), Invoke again; (sh) 2 ctors with value-group parameters and Export over <=2 scopes", "the quick entries, each explored a second time with z3 4.8.12 (--cross z3), 200 paths validated natively, plus (T05a) 3 ctors, Export, scopes created at any time",
+		"unit: every digraph with n<=4 nodes (symbolic adjacency matrix); system: (sa) 2 ctors with 1 param/1 result of symbolic type, Export, <=2 scopes; (sb) same with DeferAcyclicVerification and 2 Invokes; (sc) group and optional edges, defer free; (sd) 2 ctors over <=3 scopes of free shape (cycles visible only from a grandchild); (se) 2 registrations incl. <=1 decorator whose bodies may re-enter the container, defer free, <=2 scopes; (sf) DeferAcyclicVerification: 1 ctor, Invoke, 1 more ctor (optional / group edges), Invoke again; (sh) 2 ctors with value-group parameters and Export over <=2 scopes; (si) 4 ctors alternating between the root and a child created at any time, the first with 2 (group) parameters: the parent graph holds 3 nodes when the child is created", "the quick entries, each explored a second time with z3 4.8.12 (--cross z3), 200 paths validated natively, plus (T05a) 3 ctors, Export, scopes created at any time",
 		stubs, uf, "exceeding 600 frames / 2e7 steps counts as non-termination and is replayed natively")
 	props["C05"].FuelIsViolation = true
 	reg("C06", d("verifC06a", "verifC06b", "verifC06c", "verifC06d", "verifC06e", "verifC06f"), d("verifC06a", "verifC06b", "verifC06c", "verifC06d", "verifC06e", "verifC06f"),
@@ -129,10 +129,10 @@ func init() {
 		d("encoding-differs", "invoke-ok"),
 		"differential: the same history with every function re-encoded (positional <-> object field at depth 1/2, option <-> tag, +variadic); (a) 1 ctor + Invoke with names/optional; (b) 1 ctor with 2 results and groups; (c) 1 ctor with 2 results and names {\"\",a}, Invoke with 2 params; (d) 1 ctor with <=2 parameters and names {\"\",a} that may depend on its own result (cycle verdicts of every encoding); (e) positional / embed-first / unexported-field-before-embed spellings of one constructor (ignore-unexported); (f) 2 parameterless ctors that may fail, Invoke with 2 parameters re-encoded uniformly (positional / object / nested object): the same functions run", "the quick entries, each explored a second time with z3 4.8.12 (--cross z3), 200 paths validated natively",
 		stubs, uf)
-	reg("C16", d("verifC16a", "verifC16b", "verifC16e", "verifC16f", "verifC16g"), d("verifC16a", "verifC16b", "verifC16g", "verifC16c", "verifC16d"),
+	reg("C16", d("verifC16a", "verifC16e", "verifC16f", "verifC16g", "verifC16h"), d("verifC16a", "verifC16b", "verifC16g", "verifC16c", "verifC16d", "verifC16h"),
 		d("(*go.uber.org/dig.Scope).Scope", "(*go.uber.org/dig.Scope).newGraphNode", provide, invoke),
 		d("permuted", "scopes-moved", "order-compared-ok"),
-		"differential over 3 containers: A as drawn, B with all scopes created first and the registrations permuted, C with DeferAcyclicVerification; (a) 2 registrations with group params, <=2 scopes; (b) 3 registrations incl. a decorator; (e) 3 registrations with group and single edges over <=2 scopes created first (order only); (f) 3 ctors over <=3 scopes created at any time, order kept (scope timing only); (g) 2 parameterless ctors with Export over <=2 scopes (exported and private registrations of one key in either order)", "(a),(b) plus (c) = (e) with scopes created at any time and (d) = (f) with every registration order",
+		"differential over 3 containers: A as drawn, B with all scopes created first and the registrations permuted, C with DeferAcyclicVerification; (a) 2 registrations with group params, <=2 scopes; (b) 3 registrations incl. a decorator; (e) 3 registrations with group and single edges over <=2 scopes created first (order only); (f) 3 ctors over <=3 scopes created at any time, order kept (scope timing only); (g) 2 parameterless ctors with Export over <=2 scopes (exported and private registrations of one key in either order); (h) 4 ctors alternating between the root and a child created at any time, the first with 2 (group) parameters; acceptance of the block compared in both directions; [(b) is run in the thorough tier only]", "(a),(b) plus (c) = (e) with scopes created at any time and (d) = (f) with every registration order",
 		stubs, uf, "histories whose registrations are all accepted in A")
 	reg("C17", d("verifC17a", "verifC17b", "verifC17c", "verifC17d", "verifC17e"), d("verifC17a", "verifC17b", "verifC17c", "verifC17d", "verifC17e"),
 		d("go.uber.org/dig.dryInvoker", cnCall, invoke),
